@@ -168,7 +168,7 @@ def run(ctx):
         "trusted_base": trusted_base(thm),
         "theorems": thm["statements"], "assumptions_per_theorem": thm["assumptions"],
         "evaluations": stats["rw_ops"] + stats["idem_ops"] + sum(v["ops"] for v in t2stats.values()), "distinct_nontrivial": stats["valid_values"] + stats["go_accepts_mutated"],
-        "rule": "per schema (cases.tl, goldmaster*.tl, random schemas, all generated with --tl2WhiteList=*): values from FillRandom and from "
+        "rule": "Boundary-size values are always included (<= ~30 per run): strings of length 253/254/65535/65536/65789/65790/65791 (+1 random in the windows), vectors whose body size lands on those edges, and enclosing struct bodies of exactly those sizes (top level and nested), i.e. every edge of the 1/3/9-byte size forms; per schema (cases.tl, goldmaster*.tl, random schemas, all generated with --tl2WhiteList=*): values from FillRandom and from "
                 "TL1-decoded type-directed wire values are written in TL2 by the generated code; those bytes, mutations of them and random "
                 "bytes are read and re-written by the generated code and by the extracted model (verdict, consumed length, re-written bytes "
                 "compared); model-free oracle on the Go side: write(read(b)) == b and exact consumption for written b, and for every accepted "
